@@ -57,6 +57,9 @@ pub enum Fault {
     Eintr { call: String, n: u64, burst: u64 },
     /// The n-th write accepts only `keep` bytes (a legal short write).
     Short { n: u64, keep: u64 },
+    /// Real process kill (SIGKILL to ourselves) at call boundary `at` (event index; phase 0 = before the
+    /// call, 1 = after). Only used by the cross-check tier, in a child process.
+    Kill { at: u64, phase: u8 },
 }
 
 impl Fault {
@@ -69,6 +72,7 @@ impl Fault {
             }
             Fault::Eintr { call, .. } => format!("eintr:{}", call),
             Fault::Short { .. } => "short_write".into(),
+            Fault::Kill { .. } => "kill".into(),
         }
     }
 }
@@ -218,6 +222,15 @@ impl ShimState {
     /// crash-point observer: what would be left at the destination if the process died right now
     fn observe(&mut self, ev_idx: usize, phase: u8) {
         self.boundaries += 1;
+        for f in &self.plan {
+            if let Fault::Kill { at, phase: p } = f {
+                if *at as usize == ev_idx && *p == phase {
+                    unsafe {
+                        libc::kill(libc::getpid(), libc::SIGKILL);
+                    }
+                }
+            }
+        }
         let st = stat_of(&self.dest);
         if !self.dirty && st == self.last_stat && !self.contents.is_empty() {
             return;
